@@ -33,6 +33,12 @@ def spline_T(rng, z_lo=None):
         K = sorted(10 ** rng.uniform(-6, 5) for _ in range(n))
     else:
         K = [10 ** rng.uniform(-6, 5) for _ in range(n)]
+    if rng.random() < 0.25:
+        # a uniform layer: two (or all) neighbouring knots with exactly the same conductivity
+        j = rng.randrange(n - 1)
+        K[j + 1] = K[j]
+        if rng.random() < 0.2:
+            K = [K[0]] * n
     return {'type': 'spline', 'zeta_knots_mm': knots, 'K_knots_km_d': K,
             'minimum_transmissivity_m2_d': 10 ** rng.uniform(-3, 2)}
 
